@@ -318,7 +318,7 @@ Proof.
                match enabled_succs (st_env st1) succ with Ok [] => RunOk st1 None | Ok (a :: l) => if all_same (a :: l) then RunOk st1 (Some a) else RunAmbiguous
                | Err e0 => RunStuck e0 | Panic => RunStuck EOther end).
   { intros succ. apply run_block_succs; [cbn; destruct o1; try discriminate Ia; reflexivity|discriminate|cbn; lia|exact Hex]. }
-  assert (Mi: mirror_instr m addr (ILoop k t) = Some (Ok (one_block addr [o1]))).
+  assert (Mi: mirror_instr m addr len (ILoop k t) = Some (Ok (one_block addr [o1]))).
   { unfold mirror_instr, lift_loop. fold w. rewrite Oc. cbn [bind]. rewrite Md. cbn [bind]. rewrite Hops. reflexivity. }
   unfold step in Hstep. fold w in Hstep. unfold X86.CX in Hstep. rewrite Rv in Hstep. fold c in Hstep.
   assert (Es1: set_gpr s (reg_write w 1 c (x_gpr s)) = s1) by (rewrite Eg; reflexivity). rewrite Es1 in Hstep.
